@@ -15,8 +15,13 @@ import (
 
 // Property describes one check.
 type Property struct {
-	ID    string
-	Title string
+	// ChildProbe names a verifcheck subcommand that the supervisor runs in a process
+	// of its own after the workers; what it observes is recorded under
+	// ChildProbeSignature (used for findings that can end in a fatal runtime error).
+	ChildProbe          string
+	ChildProbeSignature string
+	ID                  string
+	Title               string
 	// Cases returns the number of cases of a tier ("quick", "thorough", "race").
 	Cases func(tier string) int
 	// Run executes case c.Idx (generate, execute, judge).
@@ -95,6 +100,17 @@ type Ctx struct {
 	hashes  map[uint64]struct{}
 	sets    map[string]map[uint64]struct{}
 	caseStr string
+	capture *[]Violation // when set, Violation() collects here instead of reporting
+}
+
+// Captured runs fn with violations collected instead of reported and returns them.
+func (c *Ctx) Captured(fn func()) []Violation {
+	var buf []Violation
+	prev := c.capture
+	c.capture = &buf
+	defer func() { c.capture = prev }()
+	fn()
+	return buf
 }
 
 // NewResult prepares an empty result.
@@ -192,6 +208,10 @@ func (c *Ctx) Sample(v any) {
 // behaviour (stable across runs); detail describes this instance.
 func (c *Ctx) Violation(sig, format string, a ...any) {
 	detail := fmt.Sprintf(format, a...)
+	if c.capture != nil {
+		*c.capture = append(*c.capture, Violation{Idx: c.Idx, Sig: sig, Detail: detail, Case: c.caseStr})
+		return
+	}
 	c.res.SigCounts[sig]++
 	if c.res.SigCounts[sig] <= 3 {
 		c.res.Violations = append(c.res.Violations, Violation{Idx: c.Idx, Sig: sig, Detail: detail, Case: c.caseStr})
